@@ -20,7 +20,7 @@ type c23gen struct {
 	r       *core.R
 	extreme bool // the numeric argument being drawn may be one of the labelled extreme values (direct arguments only)
 	bounded bool // the request contains a function whose cost grows with geometric extent: only small, local geometry
-	safe bool // functions that do their work in goroutines of their own: arguments that reach no known panic site
+	safe    bool // functions that do their work in goroutines of their own: arguments that reach no known panic site
 	classes []string
 }
 
